@@ -4,14 +4,15 @@ open Scrapli Scrapli.HostKey
 
 /-!
 line protocol (fields blank separated; strings as hex of their UTF-8, "-" = empty):
-  open <paramiko|ssh2|asyncssh> <10 bits: strict found equal hasKey keyLoads hasPw hasUser kexOK accKey accPw>
+  open <paramiko|ssh2|asyncssh> <11 bits: strict found equal importable hasKey keyLoads hasPw hasUser kexOK accKey accPw>
         -> <trace> <protected 0/1>
-  openkh <lib> <8 bits: strict hasKey keyLoads hasPw hasUser kexOK accKey accPw> <host> <serverKey> <hmac table> <entries>
+  openkh <lib> <8 bits: strict hasKey keyLoads hasPw hasUser kexOK accKey accPw> <host> <serverKey> <hmac table> <unimportable keys> <entries>
         -> <trace> <protected 0/1>
   lookup <host> <hmac table> <entries>   -> none | <keyType> <key>
   sys <host> <port> <tSocket> <tTransport> <keyFile> <username> <strictOff 0/1> <knownHosts> <configFile> <userArgs list>
         -> <argv list> <effective StrictHostKeyChecking | none> <effective UserKnownHostsFile | none>
   order  -> the generated call lists and pinOf
+unimportable keys: `keyType:key` pairs asyncssh cannot load, joined by "," or "." (the `imp` parameter)
 hmac table: `salt:digest` pairs (for the host of the line) joined by "," or "."
 entries: `<id>+<id>â€¦/<keyType>/<key>` joined by ";" or "." ; id = `p:<name>` | `h:<salt>:<hash>`
 -/
@@ -79,7 +80,8 @@ def hmacOf (host : String) (tbl : List (String Ã— String)) : String â†’ String â
 def callStr (p : Scrapli.HostKey.Call Ã— Bool) : String :=
   let n := match p.1 with
     | .handshake => "handshake" | .verifyKey => "verifyKey" | .verifyPresent => "verifyPresent"
-    | .verifyValue => "verifyValue" | .connect pin => if pin then "connect+pin" else "connect"
+    | .verifyValue => "verifyValue"
+    | .connect pin fb => if pin then (if fb then "connect+pin-or-none" else "connect+pin") else "connect"
     | .authenticate => "authenticate" | .openChannel => "openChannel"
   if p.2 then n ++ "?" else n
 
@@ -91,15 +93,16 @@ def handleLine (line : String) : String :=
   match line.trimAscii.toString.splitOn " " with
   | ["open", lib, b] =>
     match libOf lib, bits b with
-    | some l, [a1, a2, a3, a4, a5, a6, a7, a8, a9, a10] =>
-      traceStr (openOf l { strict := a1, found := a2, equal := a3, hasKey := a4, keyLoads := a5, hasPw := a6,
-                           hasUser := a7, kexOK := a8, accKey := a9, accPw := a10 })
+    | some l, [a1, a2, a3, ai, a4, a5, a6, a7, a8, a9, a10] =>
+      traceStr (openOf l { strict := a1, found := a2, equal := a3, importable := ai, hasKey := a4, keyLoads := a5,
+                           hasPw := a6, hasUser := a7, kexOK := a8, accKey := a9, accPw := a10 })
     | _, _ => "bad-op"
-  | ["openkh", lib, b, host, skey, tbl, ents] =>
+  | ["openkh", lib, b, host, skey, tbl, unimp, ents] =>
     match libOf lib, bits b, parseEntries ents with
     | some l, [a1, a4, a5, a6, a7, a8, a9, a10], some es =>
       let h := str host
-      traceStr (openOf l (cfgOf (hmacOf h (parseTable tbl)) es h (str skey)
+      let bad := parseTable unimp
+      traceStr (openOf l (cfgOf (hmacOf h (parseTable tbl)) (fun kt k => !(bad.contains (kt, k))) es h (str skey)
         { strict := a1, hasKey := a4, keyLoads := a5, hasPw := a6, hasUser := a7, kexOK := a8, accKey := a9, accPw := a10 }))
     | _, _, _ => "bad-op"
   | ["lookup", host, tbl, ents] =>
@@ -122,7 +125,7 @@ def handleLine (line : String) : String :=
     | none => "bad-op"
   | ["order"] =>
     let f := fun (l : List (Scrapli.HostKey.Call Ã— Bool)) => ",".intercalate (l.map callStr)
-    s!"{f Scrapli.Gen.HostKey.paramikoOpenCalls} {f Scrapli.Gen.HostKey.ssh2OpenCalls} {f Scrapli.Gen.HostKey.asyncsshOpenCalls} {if pinOf Scrapli.Gen.HostKey.asyncsshOpenCalls then 1 else 0}"
+    s!"{f Scrapli.Gen.HostKey.paramikoOpenCalls} {f Scrapli.Gen.HostKey.ssh2OpenCalls} {f Scrapli.Gen.HostKey.asyncsshOpenCalls} {if pinOf Scrapli.Gen.HostKey.asyncsshOpenCalls then 1 else 0}{if fallbackOf Scrapli.Gen.HostKey.asyncsshOpenCalls then 1 else 0}"
   | _ => "bad-op"
 
 partial def loop (h : IO.FS.Stream) : IO Unit := do
